@@ -543,17 +543,10 @@ impl EpochDifficultyTrend {
         for group in &[details.start, details.end] {
             match group {
                 EpochCountGroupByTrend::Decreased(epochs_count) => {
-                    let state = "decreased";
-                    for index in 0..*epochs_count {
+                    for _ in 0..*epochs_count {
                         curr /= tau;
-                        total = total.checked_add(&curr).unwrap_or_else(|| {
-                            panic!(
-                                "overflow when calculate the limit of total difficulty, \
-                                total: {}, current: {}, index: {}/{}, tau: {}, \
-                                state: {}, trend: {:?}, details: {:?}",
-                                total, curr, index, epochs_count, tau, state, self, details
-                            );
-                        });
+                        // A saturated total is not less than any actual total difficulty.
+                        total = total.saturating_add(&curr);
                         if total >= *actual {
                             if check_max {
                                 debug!("check total difficulty: not greater than upper limit (short-circuit)");
@@ -570,17 +563,10 @@ impl EpochDifficultyTrend {
                     }
                 }
                 EpochCountGroupByTrend::Increased(epochs_count) => {
-                    let state = "increased";
-                    for index in 0..*epochs_count {
+                    for _ in 0..*epochs_count {
                         curr = curr.saturating_mul(&tau_u256);
-                        total = total.checked_add(&curr).unwrap_or_else(|| {
-                            panic!(
-                                "overflow when calculate the limit of total difficulty, \
-                                total: {}, current: {}, index: {}/{}, tau: {}, \
-                                state: {}, trend: {:?}, details: {:?}",
-                                total, curr, index, epochs_count, tau, state, self, details
-                            );
-                        });
+                        // A saturated total is not less than any actual total difficulty.
+                        total = total.saturating_add(&curr);
                         if total >= *actual {
                             if check_max {
                                 debug!("check total difficulty: not greater than upper limit (short-circuit)");
@@ -598,8 +584,14 @@ impl EpochDifficultyTrend {
                 }
             }
         }
+        // An overflowed limit is greater than any actual total difficulty.
+        let total_with_unaligned = total.checked_add(unaligned);
         if check_max {
-            if &total + unaligned >= *actual {
+            if total_with_unaligned
+                .as_ref()
+                .map(|limit| limit >= actual)
+                .unwrap_or(true)
+            {
                 debug!("check total difficulty: not greater than upper limit (fully-calculated)");
                 Ok(())
             } else {
@@ -609,7 +601,11 @@ impl EpochDifficultyTrend {
                 );
                 Err(errmsg)
             }
-        } else if &total + unaligned <= *actual {
+        } else if total_with_unaligned
+            .as_ref()
+            .map(|limit| limit <= actual)
+            .unwrap_or(false)
+        {
             debug!("check total difficulty: not less than lower limit (fully-calculated)");
             Ok(())
         } else {
@@ -965,10 +961,20 @@ pub(crate) fn verify_tau(
     } else {
         let start_block_difficulty = compact_to_difficulty(start_compact_target);
         let end_block_difficulty = compact_to_difficulty(end_compact_target);
-        let start_epoch_difficulty = start_block_difficulty * start_epoch.length();
-        let end_epoch_difficulty = end_block_difficulty * end_epoch.length();
+        // All numbers are provided by the peer: do not abort on overflow.
+        let epoch_difficulties = start_block_difficulty
+            .checked_mul(&U256::from(start_epoch.length()))
+            .zip(end_block_difficulty.checked_mul(&U256::from(end_epoch.length())));
         // How many times are epochs switched?
-        let epochs_switch_count = end_epoch.number() - start_epoch.number();
+        let epochs_switch_count_opt = end_epoch.number().checked_sub(start_epoch.number());
+        let (start_epoch_difficulty, end_epoch_difficulty, epochs_switch_count) =
+            match (epoch_difficulties, epochs_switch_count_opt) {
+                (Some((start, end)), Some(count)) => (start, end, count),
+                _ => {
+                    error!("failed: epoch difficulties overflow or epochs are not in order");
+                    return Err(StatusCode::InvalidCompactTarget.into());
+                }
+            };
         let epoch_difficulty_trend =
             EpochDifficultyTrend::new(&start_epoch_difficulty, &end_epoch_difficulty);
         Ok(epoch_difficulty_trend.check_tau(tau, epochs_switch_count))
@@ -996,9 +1002,22 @@ pub(crate) fn verify_total_difficulty(
     let total_difficulty = end_total_difficulty - start_total_difficulty;
     let start_block_difficulty = &compact_to_difficulty(start_compact_target);
 
+    // All numbers are provided by the peer: do not abort on overflow.
+    let overflow_errmsg = || {
+        format!(
+            "failed since the epochs ([{:#},{:#}]) or their difficulties are overflow",
+            start_epoch, end_epoch
+        )
+    };
+
     if start_epoch.number() == end_epoch.number() {
-        let total_blocks_count = end_epoch.index() - start_epoch.index();
-        let total_difficulty_calculated = start_block_difficulty * total_blocks_count;
+        let total_blocks_count = end_epoch
+            .index()
+            .checked_sub(start_epoch.index())
+            .ok_or_else(overflow_errmsg)?;
+        let total_difficulty_calculated = start_block_difficulty
+            .checked_mul(&U256::from(total_blocks_count))
+            .ok_or_else(overflow_errmsg)?;
         if total_difficulty != total_difficulty_calculated {
             let errmsg = format!(
                 "failed since total difficulty is {:#x} \
@@ -1016,10 +1035,17 @@ pub(crate) fn verify_total_difficulty(
     } else {
         let end_block_difficulty = &compact_to_difficulty(end_compact_target);
 
-        let start_epoch_difficulty = start_block_difficulty * start_epoch.length();
-        let end_epoch_difficulty = end_block_difficulty * end_epoch.length();
+        let start_epoch_difficulty = start_block_difficulty
+            .checked_mul(&U256::from(start_epoch.length()))
+            .ok_or_else(overflow_errmsg)?;
+        let end_epoch_difficulty = end_block_difficulty
+            .checked_mul(&U256::from(end_epoch.length()))
+            .ok_or_else(overflow_errmsg)?;
         // How many times are epochs switched?
-        let epochs_switch_count = end_epoch.number() - start_epoch.number();
+        let epochs_switch_count = end_epoch
+            .number()
+            .checked_sub(start_epoch.number())
+            .ok_or_else(overflow_errmsg)?;
         let epoch_difficulty_trend =
             EpochDifficultyTrend::new(&start_epoch_difficulty, &end_epoch_difficulty);
 
@@ -1035,10 +1061,16 @@ pub(crate) fn verify_total_difficulty(
             })?;
 
         // Step-2 Check the range of total difficulty.
-        let start_epoch_blocks_count = start_epoch.length() - start_epoch.index() - 1;
+        let start_epoch_blocks_count = start_epoch
+            .length()
+            .checked_sub(start_epoch.index() + 1)
+            .ok_or_else(overflow_errmsg)?;
         let end_epoch_blocks_count = end_epoch.index() + 1;
-        let unaligned_difficulty_calculated = start_block_difficulty * start_epoch_blocks_count
-            + end_block_difficulty * end_epoch_blocks_count;
+        let unaligned_difficulty_calculated = start_block_difficulty
+            .checked_mul(&U256::from(start_epoch_blocks_count))
+            .zip(end_block_difficulty.checked_mul(&U256::from(end_epoch_blocks_count)))
+            .and_then(|(start_part, end_part)| start_part.checked_add(&end_part))
+            .ok_or_else(overflow_errmsg)?;
         if epochs_switch_count == 1 {
             if total_difficulty != unaligned_difficulty_calculated {
                 let errmsg = format!(
